@@ -183,17 +183,19 @@ func checkC06(c CaseC06, x *hx.Ctx) *hx.Failure {
 	for _, p := range pkts {
 		concat = append(concat, p.Payload...)
 	}
-	for _, in := range [][]byte{payload, concat} {
+	for _, src := range [][]byte{payload, concat} {
+		in, spareIntact := withSpare(src)
 		keep := clone(in)
 		got, err := psi.NewPMT(in)
 		if err != nil {
 			return hx.Failf("newpmt-error", "NewPMT failed on a well-formed payload: %v (pointer %d, %d sections before, section_length %d)", err, c.Carrier.Pointer, len(c.Carrier.Before), m.SectionLength())
 		}
-		if !bytes.Equal(keep, in) {
-			return hx.Failf("newpmt-mutates", "NewPMT modified its input")
-		}
 		if f := c06CompareStreams("NewPMT(payload)", got, m); f != nil {
 			return f
+		}
+		_ = got.String()
+		if !bytes.Equal(keep, in) || !spareIntact() {
+			return hx.Failf("newpmt-mutates", "NewPMT or a getter modified its input (or the spare capacity behind it)")
 		}
 	}
 
